@@ -84,6 +84,29 @@ class MemeticSEA(BaseSEA):
         return new
 
 
+class BreedMore(VariationalOperator):
+    """A user-written operator that breeds lambda = 2 mu children: every parent twice, the copies then mutated."""
+
+    def __init__(self, std, bounds):
+        self.mut = GaussianMutation(std=std, bounds=bounds, probability=1.0)
+
+    def __call__(self, population):
+        from pyhms.core.population import Population
+        doubled = Population(np.concatenate((population.genomes, population.genomes)),
+                             np.concatenate((population.fitnesses, population.fitnesses)), population.problem)
+        return self.mut(doubled)
+
+
+class MuPlusLambdaSEA(BaseSEA):
+    """A user-composed (mu + lambda) engine that relies on the inherited run() and select_new_population(): its pipeline
+    returns twice as many children as it was given parents."""
+
+    @classmethod
+    def create(cls, **kwargs):
+        problem = kwargs.get("problem")
+        return cls([TournamentSelection(), BreedMore(kwargs.get("mutation_std", 1.0), problem.bounds)], kwargs.get("k_elites", 1))
+
+
 class DocStyleConfig(BaseLevelConfig):
     """docs/custom_demes.rst, step 1."""
 
@@ -121,7 +144,7 @@ class DocStyleDemeB(DocStyleDeme):
 
 
 SEA_CLASSES = {"SEA": SEA, "SEAX": SEAWithCrossover, "GA": GAStyleSEA, "ADAPT": SEAWithAdaptiveMutation, "MWEA": MWEA,
-               "MEMETIC": MemeticSEA}
+               "MEMETIC": MemeticSEA, "MPL": MuPlusLambdaSEA}
 POP_ENGINES = set(SEA_CLASSES) | {"DE", "DEd", "SHADE"}
 
 
